@@ -40,6 +40,11 @@ def families(tier):
         {'name': 'A5b', 'params': {'modes': ['ok', 'raise_before'], 'mut_paths': ['in/x', 'o/d/g', 'o/z']}, 'weight': 2},
         {'name': 'A6', 'params': {'kinds': ['is_dir', 'list_dir'], 'mut_paths': ['in/x', 'o/z']}, 'weight': 3},
         {'name': 'B2', 'params': {'mut_paths': [], 'hist': 'BBB'}, 'weight': 3},
+        # four levels: the innermost subbuild builds a file, its caller looks at that file, the outermost reads an input that
+        # changes - only the outermost may be re-executed
+        {'name': 'N3', 'params': {'mut_paths': ['in/x'], 'mut_kinds': ['none', 'write'], 'universe': ['in', 'in/x', 'o', 'o/d'],
+                                  'leaf_output': 'o/d/k', 'inner_q': ['is_file', 'read_m', 'exists'], 'inner_roles': ['o/d/k', 'in/x'],
+                                  'sb_modes': ['ok'], 'bf_modes': ['ok'], 'kinds': ['is_dir'], 'roles': ['o']}, 'weight': 2},
         {'name': 'B9', 'params': {'mut_paths': [], 'hist': 'BB', 'universe': ['o', 'o/d'], 'kinds': ['is_dir', 'list_dir', 'exists']}, 'weight': 1},
         {'name': 'B10', 'params': {'mut_paths': [], 'hist': 'BB', 'universe': ['o', 'o/d', 'o/d/z'], 'kinds': ['is_dir', 'list_dir', 'exists']}, 'weight': 1},
         # every query kind inside a failing (caught) build_file function, on its own fresh parent directory
